@@ -19,3 +19,6 @@ SP=$("$VENV/bin/python" -c "import site;print(site.getsitepackages()[0])")
 printf "/venv/lib/python3.12/site-packages\n/repo\n" > "$SP/xv_overlay.pth"
 PIP_NO_INDEX=1 "$VENV/bin/pip" install -q --no-index --find-links /opt/veriftools/wheels crosshair-tool z3-solver >/dev/null
 "$VENV/bin/python" -c "import crosshair, z3, xandikos; print('overlay venv ready:', crosshair.__version__, z3.get_version_string())"
+# supporting validation of the environment model against the real libraries (informational here; the thorough
+# tier of C01 / C13 treats a disagreement as a harness error)
+(cd "$HERE" && "$VENV/bin/python" -m xv.validate_env) || echo "WARNING: environment model validation reported a disagreement"
